@@ -10,8 +10,12 @@ from . import tlc as _tlc
 
 VERIF = os.path.dirname(os.path.dirname(os.path.abspath(__file__)))
 SPEC = os.path.join(VERIF, "spec")
-EVID = os.path.join(VERIF, "evidence")
-REPLAYS = os.path.join(VERIF, "replays")
+# Trial runs against another tree (VERIF_REPO=/scratch/worktree: seeded changes, candidate fixes, refactorings) must not
+# overwrite the evidence of /repo itself: their evidence and replay files go under /verif/.trial/ (not committed).
+_TRIAL = os.path.realpath(os.environ.get("VERIF_REPO", "/repo")) != os.path.realpath("/repo")
+_OUT = os.path.join(VERIF, ".trial") if _TRIAL else VERIF
+EVID = os.path.join(_OUT, "evidence")
+REPLAYS = os.path.join(_OUT, "replays")
 KNOWN = os.path.join(VERIF, "known_findings.json")
 
 MachineryError = _tlc.MachineryError
